@@ -691,7 +691,7 @@ def splice_closures(text, closure_specs):
             j = match_close(toks, nx)
             edits.append((b1, b2, head.strip() + '\n{ ' + ' '.join(binds) + ' ', j + 1))
         else:
-            # bare-expression body: ends at the ',' or ')' at depth 0
+            # bare-expression body: ends at the ',' / ')' / ';' at depth 0
             j, depth = nx, 0
             while j < len(toks):
                 x = toks[j]
@@ -700,7 +700,7 @@ def splice_closures(text, closure_specs):
                     elif x.text in ')]}':
                         if depth == 0: break
                         depth -= 1
-                    elif x.text == ',' and depth == 0:
+                    elif x.text in (',', ';') and depth == 0:
                         break
                 j += 1
             edits.append((b1, b2, head.strip() + '\n{ ' + ' '.join(binds) + ' ', j))
